@@ -470,7 +470,13 @@ func c09Ops(seed int64, n int) (ops []c09Op, hostile []c09Op) {
 			off := []float64{0, 0, 0, -0.001, 0.001, 3.7}[rng.Intn(6)]
 			ops = append(ops, c09Op{K: "dtt", A: []int{int(math.Round(((kn-2000)*365.2425 + off) * 1000))}})
 		case 16:
-			ops = append(ops, c09Op{K: "astro", A: []int{(rng.Intn(7304000) - 730000*1) * 1000 / 10}})
+			if rng.Intn(2) == 0 {
+				ops = append(ops, c09Op{K: "astro", A: []int{(rng.Intn(7304000) - 730000*1) * 1000 / 10}})
+			} else {
+				// days from J2000 of a moment inside one of the years the other descriptors use (an exported solver asked
+				// directly for arguments next to the ones the calendar itself will ask for)
+				ops = append(ops, c09Op{K: "astro", A: []int{(ref.JDN(y, m, d)-2451545)*1000 + rng.Intn(1000)}})
+			}
 		case 14:
 			ops = append(ops, c09Op{K: "obj", A: []int{y, m, d, h, mi, s}})
 		case 0, 1, 2:
